@@ -281,6 +281,36 @@ Example C13_example_two_groups_one_domain :
   rt_exist (rt_del t2 1 2 2) 1 2 1 = true /\ rt_exist (rt_del t2 1 2 2) 1 2 2 = false.
 Proof. intros t1 t2 H1 H2. vm_compute in H1. inversion H1; subst. vm_compute in H2. inversion H2; subst. vm_compute. split; reflexivity. Qed.
 
+(* ---- http groups on the paths through the reverse proxy and the http proxy (reflective) ---- *)
+(* the dial of a member (its CreateConnFn may wait for a work connection) runs outside the group's lock:
+   a stalled member blocks neither requests to other members nor joins and leaves *)
+Theorem C13_member_dial_outside_group_lock :
+  map fst http_member_call_facts = expected_member_functions /\
+  forall f evs, In (f, evs) http_member_call_facts ->
+    forall pre post, evs = (pre ++ GMemberCall :: post)%list -> grp_held pre false = false.
+Proof. exact (member_calls_ok_sound http_member_call_facts (eq_refl true <: member_calls_ok http_member_call_facts = true)). Qed.
+Print Assumptions C13_member_dial_outside_group_lock.
+
+(* HTTPProxy.Run arranges the leave only after the join succeeded (so the roll-back of a refused join,
+   e.g. a same-name duplicate, leaves every other membership alone: a refused join changes nothing);
+   a CONNECT on the vhost http port is dialled through the route's CreateConnFn, i.e. through the group's
+   rotation like a GET; the endpoint chosen for a request is part of the backend-connection pool key *)
+Theorem C13_http_group_request_path_matches_model :
+  sll_eqb http_proxy_run_group_blocks expected_run_group_blocks = true /\
+  sl_eqb vhost_http_group_facts expected_vhost_http_group_facts = true.
+Proof. vm_compute. split; reflexivity. Qed.
+Print Assumptions C13_http_group_request_path_matches_model.
+
+(* a request (GET or CONNECT) on an http group route goes to a name registered in the object that owns
+   the route at that moment: never to a member of a group that used to own the triple *)
+Theorem C13_http_request_goes_to_current_member : forall reqs i c c' r who m,
+  nth_error reqs i = Some (QConn r who) -> nth_error (c_t c) i = Some TInit ->
+  step KHttp reqs i c = Run c' -> nth_error (c_t c') i = Some (TConn (CTo m)) ->
+  exists gid g, find_ep KHttp (c_s c) r = Some gid /\ nth_error (s_heap (c_s c)) gid = Some g /\
+                In m (g_funcs g) /\ In m (g_lns g).
+Proof. exact http_request_current_member. Qed.
+Print Assumptions C13_http_request_goes_to_current_member.
+
 (* ---- regression witnesses about the OLD two-step join (finding F-C13, repaired in /repo) ---- *)
 Theorem C13_old_two_step_join_crashes :
   run2 KTcp (old_reqs [1] 21300) old_sched (init 21300 21399 (old_reqs [1] 21300)) = Crashed /\
